@@ -393,6 +393,21 @@ def oracle(run: Run, c, impl):
         d = np.array(c["tgt"][:3]) - np.array(c["obs"][:3])
         if not close(i["razel"][0], float(np.linalg.norm(d)), 1e-11):
             fails.append(("razel:range", "range is not the distance between the two positions"))
+        # the rates as well (an observer that moves in the Earth-fixed frame: aircraft, satellite)
+        def rates_close(u, v):
+            return all(abs(x - y) <= 1e-9 * max(1.0, abs(x), abs(y)) + 1e-13 for x, y in zip(u[3:6], v[3:6]))
+
+        if not rates_close(i["razel"], i["razel2"]):
+            fails.append(("razel:inverse-rates", f"radec2razel(razel2radec(.)) rates {i['razel2'][3:6]} vs {i['razel'][3:6]}"))
+        if not rates_close(i["radec"], i["radec2"]):
+            fails.append(("razel:compose-rates", f"razel2radec(eci2razel) rates {i['radec'][3:6]} differ from eci2radec {i['radec2'][3:6]}"))
+        dv = np.array(c["tgt"][3:6]) - np.array(c["obs"][3:6])
+        rho = float(np.linalg.norm(d))
+        rho_dot = float(d @ dv) / rho
+        pxy = float(d[0] ** 2 + d[1] ** 2)
+        own = [rho, 0.0, 0.0, rho_dot, float(dv[2] - rho_dot * d[2] / rho) / math.sqrt(pxy), float(d[0] * dv[1] - d[1] * dv[0]) / pxy]  # range, dec, ra rates
+        if pxy > 1.0 and not rates_close(own, i["radec"]):
+            fails.append(("razel:radec-rates", f"razel2radec rates {i['radec'][3:6]} are not those of the relative inertial state {own[3:6]}"))
     elif op == "spin":
         from resonaate.physics.bodies.earth import Earth
 
